@@ -28,7 +28,7 @@ RULE = (
     "RuleBasedStateMachine over a drawn pool of 4-8 classes (always a flexible request header, a class with tagged "
     "fields and two versions of one API whose classes share names) x 1-3 values; rules: create reader/writer (cold or "
     "warm, cache_clear is a rule; every pool also holds two versions of one same-named tag-bearing class in a drawn order), encode, decode, decode a truncated prefix, encode an invalid value (wrong-typed "
-    "field so the writer fails part-way), encode/decode through a stream that raises at call k; invariant after every "
+    "field so the writer fails part-way), encode an EQUAL TWIN of a pool value (one numeric leaf replaced by an equal value of another type, or 0.0 by -0.0: outcome must equal the cold-cache outcome recorded when the value entered the pool), encode/decode through a stream that raises at call k; invariant after every "
     "step: every pool value still encodes/decodes to its pristine result through the currently cached closures, and "
     "injected exceptions propagate unchanged. (2) Fault positions: for each (class, value) pair ALL k in [0, W) write "
     "calls and [0, R) read calls are injected (exhaustive per pair), bytes written before the fault must be a prefix "
@@ -59,6 +59,62 @@ class Item:
     tree_json: object
     value: object
     pristine: bytes
+    twins: list = dataclasses.field(default_factory=list)  # [(path, twin value, outcome with cold caches)]
+
+
+def _leaf_paths(value, prefix=(), out=None, limit: int = 48) -> list:
+    """Paths to scalar leaves of an entity (dataclass fields; first and last item of tuples)."""
+    out = [] if out is None else out
+    if len(out) >= limit:
+        return out
+    if dataclasses.is_dataclass(value) and not isinstance(value, type):
+        for f in dataclasses.fields(value):
+            _leaf_paths(getattr(value, f.name), prefix + (f.name,), out, limit)
+    elif isinstance(value, tuple):
+        for idx in sorted({0, len(value) - 1} & set(range(len(value)))):
+            _leaf_paths(value[idx], prefix + (idx,), out, limit)
+    elif isinstance(value, (bool, int, float)):
+        out.append(prefix)
+    return out
+
+
+def _twin_of(v):
+    """A value that compares (and hashes) equal to v but is of another type, or is the other zero: its wire form - or
+    its being rejected by the writer - must not depend on whether v itself was encoded before."""
+    if isinstance(v, bool):
+        return int(v)
+    if isinstance(v, int):
+        f = float(v)
+        return f if f == v else None
+    if isinstance(v, float):
+        if v == 0:
+            return -v
+        return int(v) if v.is_integer() else None
+    return None
+
+
+def _get_path(value, path):
+    for p in path:
+        value = value[p] if isinstance(p, int) else getattr(value, p)
+    return value
+
+
+def _replace_path(value, path, new):
+    if not path:
+        return new
+    p = path[0]
+    if isinstance(p, int):
+        return value[:p] + (_replace_path(value[p], path[1:], new),) + value[p + 1:]
+    return dataclasses.replace(value, **{p: _replace_path(getattr(value, p), path[1:], new)})
+
+
+def _encode_outcome(writer, value) -> str:
+    sink = RecordingSink()
+    try:
+        writer(sink, value)
+    except Exception as e:  # noqa: BLE001 - the exception type is the outcome
+        return "exc:" + type(e).__name__
+    return "ok:" + sink.value().hex()
 
 
 def make_item(cd: D.ClassDesc, tree) -> Item:
@@ -132,6 +188,16 @@ class Executor:
         if got != it.pristine:
             raise Violation("history:pristine-differs-from-reference",
                             f"{path}: with cold caches kio encodes {got.hex()[:200]}, reference {it.pristine.hex()[:200]}")
+        # equal twins of the value (one leaf replaced by an equal value of another type / the other zero), each encoded
+        # with cold caches BEFORE the value itself has ever been encoded by that writer
+        for lp in _leaf_paths(it.value):
+            tw = _twin_of(_get_path(it.value, lp))
+            if tw is None:
+                continue
+            twin_value = _replace_path(it.value, lp, tw)
+            clear_caches()
+            it.twins.append((lp, twin_value, _encode_outcome(K.entity_writer(cd.cls), twin_value)))
+        clear_caches()
         self.items.append(it)
 
     def op_clear(self):
@@ -187,6 +253,20 @@ class Executor:
         except Exception:
             self._had_failure_on.add(("w", i))
         # success is possible (e.g. an int where any int is accepted): nothing to conclude from the output
+
+    def op_twin(self, i: int, sel: int):
+        """Encode an EQUAL twin of a pool value (one leaf swapped for an equal value of another type, or 0.0 <-> -0.0):
+        the outcome must be what it was with cold caches, whatever has been encoded since."""
+        i %= len(self.items)
+        it = self.items[i]
+        if not it.twins:
+            return
+        lp, twin_value, want = it.twins[sel % len(it.twins)]
+        got = _encode_outcome(self._writer(it), twin_value)
+        if got != want:
+            raise Violation("history:equal-twin-encodes-differently",
+                            f"{it.cd.path}: value with {'.'.join(map(str, lp))} = {_get_path(twin_value, lp)!r} (equal to the pool value's "
+                            f"{_get_path(it.value, lp)!r}) gives {got[:200]} now, {want[:200]} with cold caches; after {self.log[-3:]}")
 
     def op_faulty_sink(self, i: int, k: int, exc_kind: int):
         i %= len(self.items)
@@ -354,6 +434,10 @@ class HistoryMachine(RuleBasedStateMachine):
     @rule(i=st.integers(0, 63), sel=st.integers(0, 63), kind=st.integers(0, 3))
     def invalid(self, i, sel, kind):
         self._do(["invalid", i, sel, kind])
+
+    @rule(i=st.integers(0, 63), sel=st.integers(0, 63))
+    def twin(self, i, sel):
+        self._do(["twin", i, sel])
 
     @rule(i=st.integers(0, 63), k=st.integers(0, 10**6), e=st.integers(0, 3))
     def faulty_sink(self, i, k, e):
